@@ -80,13 +80,18 @@ def domMatch (dim day : Int) (r : Range) : Bool :=
   if b > dim then false
   else decide (day ≥ clamp b (-dim) dim ∧ day ≤ clamp e (-dim) dim)
 
-/-- `ContainsTime` after the conversion to the interval's location. -/
-def containsClock (iv : TimeInterval) (k : Clock) : Bool :=
+/-- `ContainsTime` after the conversion to the interval's location, with the
+    month length `dim` as a parameter (whatever `daysInMonth(t)` returned). -/
+def containsClockWith (dim : Int) (iv : TimeInterval) (k : Clock) : Bool :=
   inField iv.times (timeMatch (k.hour * 60 + k.minute)) &&
-  inField iv.daysOfMonth (domMatch (daysInMonth k.year k.month) k.day) &&
+  inField iv.daysOfMonth (domMatch dim k.day) &&
   inField iv.months (incMatch k.month) &&
   inField iv.weekdays (incMatch k.weekday) &&
   inField iv.years (incMatch k.year)
+
+/-- `ContainsTime` (repaired code: the month length is the calendar's). -/
+def containsClock (iv : TimeInterval) (k : Clock) : Bool :=
+  containsClockWith (daysInMonth k.year k.month) iv k
 
 /-- The specification (AM.Props.C15 `Spec`) as a computable predicate on civil
     fields, without `clamp`: the drivers evaluate it on the fields Go reports.
